@@ -35,7 +35,8 @@ Definition cb_dwarf (s8 : bool) (p : pres) (sec : list fde) (base_svma : N)
     | None => (CbErr rg, no_eff)                    (* ModuleUnwindDataInternal::None *)
     | Some idx =>
       match index_lookup s8 idx rel with
-      | None => (CbErr rg, no_eff)                  (* DwarfCfiIndexCouldNotFindAddress *)
+      | None => (CbErr rg, dw_eff)                  (* DwarfCfiIndexCouldNotFindAddress; the
+                                                       section slice was already taken *)
       | Some f =>
         match add64p S_dwarf_svma_add base_svma rel with
         | Ok svma => (with_fde f svma first rg m, dw_eff)
